@@ -94,6 +94,26 @@ def assembly(ctx, crate, clause):
                sample={"hash_term": show(t)[:200]})
 
 
+def clamp(ctx, crate):
+    clause = "clamp"
+    HV2 = "nested::Layer::hash_v2"; SRC = "nested::Layer::d0h_lh_in_d0c"; BUILD = "nested::Layer::build_hash_from_parts"
+    b = ctx.anchor(crate, HV2, clause)
+    if b is None: return
+    e = Engine(crate, opaque={SRC, BUILD}); e.run(HV2)
+    bld = [ev for ev in e.events.values() if ev.callee == BUILD]
+    if len(bld) != 1:
+        ctx.undecided(clause, HV2 + ":clamp", "expected one call to build_hash_from_parts", at=b.span); return
+    self_t = ('p', 'self')
+    nside = ('fld', ('deref', self_t), crate.field_index("nested::Layer", "nside"))
+    nm1 = ('fld', ('deref', self_t), crate.field_index("nested::Layer", "nside_minus_1"))
+    for name, term in (("i", bld[0].args[2]), ("j", bld[0].args[3])):
+        g = e.phi_gate.get(term)
+        ok = g is not None and g[0][0] == 'op' and g[0][1] == 'eq' and g[0][4] == nside and g[1] == nm1 and g[2] == g[0][3]
+        ctx.report(clause, "%s:%s-clamped-to-nside-1" % (HV2, name), ok,
+                   "%s' = if %s == nside { nside - 1 } else { %s }" % (name, name, name) if ok else "the coordinate %s passed to build_hash_from_parts is not clamped by its own comparison with nside (gate: %s)" % (name, g and show(g[0])[:80]),
+                   at=bld[0].at, kind="N")
+
+
 def run(ctx):
     cfgs = ["rel"] if ctx.tier == "quick" else ["rel", "dbg"]
     for cfg in cfgs:
@@ -104,5 +124,8 @@ def run(ctx):
     base_cell_bound(ctx, crate, "base-cell<=11")
     reduction(ctx, crate, "nested::Layer::xpm1_and_q", "longitude-reduction")
     assembly(ctx, crate, "assembly")
+    # the rounding clamp i, j == nside -> nside - 1 (a necessary condition of "below 12*4^depth":
+    # h + l can round up to exactly 2.0 on the NE / NW border of a base cell) — shared with C02 P4
+    clamp(ctx, crate)
     ctx.not_decided("containment of the position in the returned cell; i, j < nside (float rounding of sin/cos/products); behaviour 1-2 ulp around cell borders")
     ctx.assume("C18 (checked separately): ZOrderCurve::ij2h is the bit interleave")
